@@ -277,18 +277,8 @@ def rule_tablefields(P) -> RuleResult:
     if not f:
         raise AnalysisError('anchor vanished: _typed_namedtuple_to_columns')
     fi = f[-1]
-    loops = [n for n in fi.node.body if isinstance(n, ast.For)]
-    ok = False
-    if len(loops) == 1 and 'get_type_hints' in unparse(loops[0].iter) and isinstance(loops[0].target, ast.Tuple):
-        fv = unparse(loops[0].target.elts[0])
-        stores = [n for n in ast.walk(loops[0]) if isinstance(n, ast.Assign) and isinstance(n.targets[0], ast.Subscript)
-                  and isinstance(n.value, ast.Call) and unparse(n.value.func) == 'GetAttrColumn']
-        if len(stores) == 1 and unparse(stores[0].value.args[0]) == fv:
-            ok = True
-    if ok:
-        res.ok({'function': fi.fq, 'accessor_reads': 'the field name of the record'})
-    else:
-        res.fail(fi.fq, 'tablefields:derivation', 'a derived column must read the record field it is derived from (GetAttrColumn(<field name>, ...))', loc(fi))
+    from .sx_tables import derivation_cases
+    derivation_cases(P, fi, res)
     # accounts table: column index <-> position in the row tuple
     acc = sb.classes.get('AccountsTable')
     fq = acc.fq if acc else None
@@ -296,8 +286,35 @@ def rule_tablefields(P) -> RuleResult:
         cols = reg.tables[fq]
         want_idx = {'account': 0, 'open': 1, 'close': 2}
         it = acc.methods.get('__iter__')
-        src = unparse(it.node) if it else ''
-        good_iter = '(name, value[0], value[1])' in src
+        good_iter = False
+        if it is not None:
+            from ..symex import Sym as _S, T as _T, SList as _SL, Engine as _E
+
+            def nrm(t):
+                # value[k] of a loop element and an unpacked component are the same thing
+                if isinstance(t, _T) and t.op == 'item' and isinstance(t.args[0], _T) and t.args[0].op == 'elem' and type(t.args[1]) is int:
+                    b = t.args[0]
+                    path = (b.args[1] if len(b.args) > 1 and b.args[1] is not None else ()) + (t.args[1],)
+                    return _T('elem', (b.args[0], path))
+                if isinstance(t, _T):
+                    return _T(t.op, tuple(nrm(a) if isinstance(a, _T) else a for a in t.args))
+                return t
+            TBL = _S('ACCOUNTS_TABLE')
+            for p_ in _E(P).paths(it, {'self': TBL}):
+                v = p_.value
+                while isinstance(v, _T) and v.op == 'call' and v.args[0] in ('iter', 'list', 'tuple') and len(v.args[1]) == 1:
+                    v = v.args[1][0]
+                rowterm = seqterm = None
+                if isinstance(v, _SL) and v.origin is not None and not v.origin[2]:
+                    seqterm, rowterm = v.origin[0], v.origin[1]
+                else:
+                    ys = [e for e in p_.events if e[0] == 'yield']
+                    lb = [e for e in p_.events if e[0] == 'loop-begin']
+                    if len(ys) == 1 and len(lb) == 1:
+                        seqterm, rowterm = lb[0][1], ys[0][1]
+                if seqterm == _T('call', (f'{TBL.name}.accounts.items', (), ())) and rowterm is not None:
+                    want_row = _T('tuple', (_T('elem', (seqterm, (0,))), _T('elem', (seqterm, (1, 0))), _T('elem', (seqterm, (1, 1)))))
+                    good_iter = nrm(rowterm) == want_row
         for cname, idx in want_idx.items():
             c = cols.get(cname)
             if c is None or c.kind != 'getitem' or c.impl != idx:
@@ -351,8 +368,10 @@ def rule_metarewrite(P) -> RuleResult:
                 if isinstance(e.func, ast.Name) and e.func.id in st and isinstance(st[e.func.id], finite.Sym) \
                         and st[e.func.id].name.startswith('OP'):
                     return {'OP0': None if _cn else finite.Sym('CONTAINER'), 'OP1': finite.Sym('KEY'), 'OP2': D}[st[e.func.id].name]
-                if f.endswith('.get') and isinstance(e.func, ast.Attribute):
+                if (f.endswith('.get') or f.endswith('.setdefault')) and isinstance(e.func, ast.Attribute):
                     args = [m.ev(a, st) for a in e.args]
+                    if f.endswith('.setdefault'):
+                        ops['writes'] = True
                     if _p:
                         return _s
                     return args[1] if len(args) > 1 else None
@@ -373,6 +392,11 @@ def rule_metarewrite(P) -> RuleResult:
             except finite.Return as r:
                 got = r.value
             want = None if container_null else stored if present else (D if has_default else None)
+            if ops.get('writes'):
+                okc = False
+                res.fail(ci.fq + '.__call__', 'metarewrite:getitem:writes', f'{cname} looks the key up with setdefault(): the default is '
+                         f'written into the metadata of the directive, so a later meta() lookup finds a value the ledger does not have', loc(call))
+                break
             if got != want or (isinstance(got, finite.Sym) and isinstance(want, finite.Sym) and type(got) is not type(want)):
                 okc = False
                 res.fail(ci.fq + '.__call__', f'metarewrite:getitem:{"nocontainer" if container_null else "present" if present else "missing"}:{stored!r}',
